@@ -357,6 +357,10 @@ class Models(object):
 
         weight, log_flux, log_error = source.get_log_fluxes()
 
+        # Points that are only plotted (valid == 9) must not influence the fit:
+        # a non-positive flux gives NaN/inf there, and NaN * 0 is still NaN.
+        log_flux = np.where(source.valid == 9, 0., log_flux)
+
         model_fluxes = self.log_fluxes_mJy
 
         if model_fluxes.ndim == 2:  # Aperture-independent fitting
